@@ -35,14 +35,18 @@ RULE = ("(a) seeded traces of 0-12 events (reports of the three severities with 
         "output files; plus whole families: one program (one fault in an unused definition, or warnings only) under every output selector x "
         "with/without --lst, whose status must not depend on the output options; plus a display stream: programs of statements that span lines "
         "(word lists / operand lists continued after a comma, operand on the next line), share a line, or use legacy spellings, so that every warning "
-        "kind of WARNING_CLASSES['all'] is displayed under both formats x (none, -Wall, -Wno-all, -Wdefault, each single name, -Wall -Wno-name). non-trivial = distinct (fault kinds, warning kinds, selector, -W list, format) with >= 1 planted fault or warning, "
+        "kind of WARNING_CLASSES['all'] is displayed under both formats x (none, -Wall, -Wno-all, -Wdefault, each single name, -Wall -Wno-name); plus planted "
+        "write faults (make_* path in a missing directory / a directory, before or after a good one; -o or listing target a directory or in a missing "
+        "directory; missing / directory source; unknown --charset), the only inputs on which the two known-finding signatures may be used. non-trivial = distinct (fault kinds, warning kinds, selector, -W list, format) with >= 1 planted fault or warning, "
         "or a distinct trace containing an error-severity report")
 LEVEL_TEXT = ("Coq theorems over decision functions regenerated from reports.py / _cli.py on every run (emit_report, handle_reports.__exit__, "
               "FilterHandler.__call__, the -W loop): a block is left by UnrecoverableError iff an error- or critical-severity report was executed "
               "(induction over the trace), nothing runs after a critical report, the warning selection never changes latch/exit/error reports and "
-              "drops exactly what 'the last -W mention decides' says, foreign exceptions are never turned into a clean failure; model of main_cli's "
-              "two blocks: outputs are written iff status 0 iff no error. Partial: that the real CLI behaves so (exit status, no file created or "
-              "modified on failure, identical results across -W/format variants) is tied by real command-line runs, not proved.")
+              "drops exactly what 'the last -W mention decides' says, foreign exceptions are never turned into a clean failure; model of main_cli "
+              "with its writes as inputs (make_* files inside the second report block, -o and listing after it): status 1 iff something failed, an error "
+              "report always fails the run, an error in the assembly proper leaves no file, status 0 means everything requested was written. Partial: "
+              "the real CLI is tied by command-line runs, not proved; and two clauses of the property text are FALSE when a write fails (known findings "
+              "write-error-leaves-earlier-outputs, cli-write-failure-exits-without-diagnostic; refuted in Props/C07_findings.v, reproduced on every run).")
 LEVEL_NOTE = ("Trusted: Coq kernel + vm_compute, tools/gens/gen_reports.py (fail-closed translation of the if-trees; shape checks of main_cli), "
               "the CLI harness (directory snapshots, parsing of bare/graphical output), Spec/ReportSpec.v. "
               "The file-system part of the property is correspondence only.")
@@ -254,6 +258,9 @@ SELECTORS = ["none", "o-bin", "o-raw", "o-noext", "implicit-bin", "make-bin", "m
              "make-wav", "make-turbo", "make-two", "make+o"]
 
 
+LAST_SLOTS = [None]       # slots of the most recent apply_selector call: make_* paths in source order, the -o path, the listing path
+
+
 def apply_selector(rng, lines, sel, lst):
     """Returns (lines, extra argv, expected output paths relative to the run directory on success)."""
     argv, exp = [], []
@@ -293,13 +300,19 @@ def apply_selector(rng, lines, sel, lst):
         argv += ["-o", "image"]; exp.append("image"); first = ("raw", "image")
     elif sel == "implicit-bin":
         argv += ["--implicit-bin"]; exp.append("a.bin"); first = ("bin", "a.bin")
+    lst_path = None
     if lst:
         argv.append("--lst")
         if first is not None:
             fmt, path = first
             if path.endswith("." + fmt):
                 path = path.rpartition(".")[0]
-            exp.append(path + ".lst")
+            lst_path = path + ".lst"
+            exp.append(lst_path)
+    has_out = "-o" in argv or "--implicit-bin" in argv
+    non_lst = [e for e in exp if e != lst_path]
+    makes, out_path = (non_lst[:-1], non_lst[-1]) if has_out else (non_lst, None)
+    LAST_SLOTS[0] = {"makes": makes, "out": out_path, "lst": lst_path}
     return lines, argv, exp
 
 
@@ -337,8 +350,8 @@ def snapshot(d):
 
 def make_dir(d, files, adir, decoys):
     os.makedirs(os.path.join(d, "out"), exist_ok=True)
-    if adir:
-        os.makedirs(os.path.join(d, "adir"), exist_ok=True)
+    for dn in (["adir"] if adir is True else (adir or [])):
+        os.makedirs(os.path.join(d, dn), exist_ok=True)
     for name, text in files.items():
         with open(os.path.join(d, name), "w", encoding="utf-8") as f:
             f.write(text)
@@ -448,7 +461,8 @@ def make_family(rng, fi, gi0, wnames):
             decoys = [e for e in expected if rng.random() < 0.5] if rng.random() < 0.5 else []
             variants = [("bare", []), (rng.choice(["bare", "graphical"]), w_selection(rng, wnames))]
             groups.append({"gi": gi0 + len(groups), "files": {"a.mac": "\n".join(l2) + "\n"}, "adir": adir, "decoys": decoys, "kinds": kinds,
-                           "wids": wids, "sel": sel, "lst": lst, "sel_argv": sel_argv, "expected": expected, "variants": variants, "family": fi})
+                           "wids": wids, "sel": sel, "lst": lst, "sel_argv": sel_argv, "expected": expected, "variants": variants, "family": fi,
+                           "slots": LAST_SLOTS[0]})
     return groups
 
 
@@ -469,6 +483,7 @@ def make_group(rng, gi, wnames, tier):
     sel = SELECTORS[gi % len(SELECTORS)] if gi < 2 * len(SELECTORS) else rng.choice(SELECTORS)
     lst = rng.random() < 0.4
     lines, sel_argv, expected = apply_selector(rng, lines, sel, lst)
+    slots = LAST_SLOTS[0]
     files = {"a.mac": "\n".join(lines) + "\n"}
     if rng.random() < 0.25:
         # a second source file linked after the first one (valid code, its own labels)
@@ -479,7 +494,7 @@ def make_group(rng, gi, wnames, tier):
     while len(variants) < nvar:
         variants.append((rng.choice(["bare", "graphical"]), w_selection(rng, wnames)))
     return {"gi": gi, "files": files, "adir": adir, "decoys": decoys, "kinds": kinds, "wids": wids, "sel": sel, "lst": lst,
-            "sel_argv": sel_argv, "expected": expected, "variants": variants}
+            "sel_argv": sel_argv, "expected": expected, "variants": variants, "slots": slots}
 
 
 # statements that span lines / share a line / use legacy spellings: (warning ids it must raise, lines); {n} = a fresh digit, {insn} = a mnemonic
@@ -545,11 +560,100 @@ def make_display_group(rng, di, gi, wnames):
     wsel = [[], ["all"], ["no-all"], ["default"], ["no-default", "all"]] + [[w] for w in names] + [["all", "no-" + w] for w in names[:3]]
     variants = [("bare", [])] + [(fmt, ws) for ws in wsel for fmt in ("graphical", "bare") if (fmt, ws) != ("bare", [])]
     return {"gi": gi, "files": {"a.mac": "\n".join(lines) + "\n"}, "adir": False, "decoys": [], "kinds": kinds, "wids": wids, "sel": "o-bin", "lst": lst,
-            "sel_argv": sel_argv, "expected": expected, "variants": variants, "display": True}
+            "sel_argv": sel_argv, "expected": expected, "variants": variants, "display": True, "slots": LAST_SLOTS[0]}
+
+
+# planted WRITE faults (known findings): shape, description
+WRITE_FAULTS = ["make-missing-dir-after-good", "make-missing-dir-before-good", "make-directory-target", "make-bad-plus-o-lst",
+                "o-missing-dir", "o-directory", "lst-directory-after-o", "lst-directory-after-make", "source-missing", "source-directory", "bad-charset"]
+KNOWN_A = "write-error-leaves-earlier-outputs"
+KNOWN_B = "cli-write-failure-exits-without-diagnostic"
+
+
+def make_writefault_group(rng, wi, gi, wnames):
+    """A valid program (warnings at most) whose OUTPUT cannot be written, or whose input cannot be read.
+    env: what each write does (for the model); the run is expected to fail."""
+    shape = WRITE_FAULTS[wi % len(WRITE_FAULTS)]
+    lines, _, wids, _ = plant(rng, gen_base(rng), 0, rng.choice([0, 1]))
+    argv, dirs, srcs = [], [], ["a.mac"]
+    env = {"pre": False, "make": [], "out": "PNone", "lst": "PNone"}
+    slots = {"makes": [], "out": None, "lst": None}
+    if shape == "make-missing-dir-after-good":
+        lines = ['make_raw "ok.raw"'] + lines + ['make_raw "nodir/x.raw"']
+        env["make"] = ["WOk", 'WReported "io-error"']; slots["makes"] = ["ok.raw", "nodir/x.raw"]
+    elif shape == "make-missing-dir-before-good":
+        lines = ['make_bin "nodir/a.bin"'] + lines + ['make_raw "late.raw"']
+        env["make"] = ['WReported "io-error"', "WOk"]; slots["makes"] = ["nodir/a.bin", "late.raw"]
+    elif shape == "make-directory-target":
+        lines = ['make_bin "good.bin"', 'make_raw "adir"'] + lines
+        dirs = ["adir"]
+        env["make"] = ["WOk", 'WReported "io-error"']; slots["makes"] = ["good.bin", "adir"]
+    elif shape == "make-bad-plus-o-lst":
+        lines = ['make_raw "first.raw"', 'make_raw "nodir/y.raw"'] + lines
+        argv = ["-o", "o.bin", "--lst"]
+        env["make"] = ["WOk", 'WReported "io-error"']; env["out"] = "POk"; env["lst"] = "POk"
+        slots = {"makes": ["first.raw", "nodir/y.raw"], "out": "o.bin", "lst": "o.lst"}
+    elif shape == "o-missing-dir":
+        argv = ["-o", "nodir/out.bin"]; env["out"] = "PFail"; slots["out"] = "nodir/out.bin"
+    elif shape == "o-directory":
+        argv = ["-o", "adir"]; dirs = ["adir"]; env["out"] = "PFail"; slots["out"] = "adir"
+    elif shape == "lst-directory-after-o":
+        argv = ["-o", "out.bin", "--lst"]; dirs = ["out.lst"]
+        env["out"] = "POk"; env["lst"] = "PFail"; slots["out"] = "out.bin"; slots["lst"] = "out.lst"
+    elif shape == "lst-directory-after-make":
+        lines = ['make_raw "m.raw"'] + lines
+        argv = ["--lst"]; dirs = ["m.lst"]
+        env["make"] = ["WOk"]; env["lst"] = "PFail"; slots["makes"] = ["m.raw"]; slots["lst"] = "m.lst"
+    elif shape == "source-missing":
+        argv = ["-o", "out.bin"]; srcs = ["a.mac", "missing.mac"]; env["pre"] = True; slots["out"] = "out.bin"
+    elif shape == "source-directory":
+        argv = ["-o", "out.bin"]; srcs = ["adir", "a.mac"]; dirs = ["adir"]; env["pre"] = True; slots["out"] = "out.bin"
+    elif shape == "bad-charset":
+        argv = ["--charset", "no-such-charset", "-o", "out.bin"]; env["pre"] = True; slots["out"] = "out.bin"
+    variants = [("bare", []), ("graphical", []), (rng.choice(["bare", "graphical"]), w_selection(rng, wnames))]
+    return {"gi": gi, "files": {"a.mac": "\n".join(lines) + "\n"}, "adir": dirs, "decoys": [], "kinds": [], "wids": wids, "sel": "write-fault:" + shape,
+            "lst": "--lst" in argv, "sel_argv": argv, "expected": [], "variants": variants, "slots": slots, "env": env, "writefault": shape, "sources": srcs}
+
+
+def env_of(g):
+    """What the writes do, for the model: the planted write fault, or 'every requested write succeeds'."""
+    if "env" in g:
+        return g["env"]
+    sl = g["slots"]
+    return {"pre": False, "make": ["WOk"] * len(sl["makes"]), "out": "POk" if sl["out"] else "PNone", "lst": "POk" if sl["lst"] else "PNone"}
+
+
+def env_term(e):
+    return f"(mk_env {'true' if e['pre'] else 'false'} [{'; '.join(e['make'])}] {e['out']} {e['lst']})"
+
+
+def written_slots(g, run):
+    sl = g["slots"]
+    paths = list(sl["makes"]) + [sl["out"], sl["lst"]]
+    return [i for i, pth in enumerate(paths) if pth is not None and pth in run["changed"]]
+
+
+def known_signature(g, run, probs):
+    """The two known findings, and only their shapes: a planted write fault, the model's prediction met, and no other problem."""
+    shape = g.get("writefault")
+    if not shape or not probs:
+        return None
+    sl = g["slots"]
+    allowed_left = set(sl["makes"]) | {sl["out"], sl["lst"]}
+    left_ok = set(run["changed"]) <= allowed_left and not run["removed"]
+    errs = [x if isinstance(x, bool) else x[0] for x in run["shown"]]
+    if shape.startswith("make-"):
+        if run["status"] == 1 and any(errs) and left_ok and run["changed"] and all(p.startswith("failed run created") for p in probs):
+            return KNOWN_A
+        return None
+    if run["status"] == 1 and not any(errs) and not run["internal"] and left_ok and \
+            all(p.startswith("failed run created") or p.startswith("status 1 with 0 error lines") for p in probs):
+        return KNOWN_B
+    return None
 
 
 def argv_of(g, fmt, ws):
-    return ["--report-format", fmt] + w_argv(ws) + g["sel_argv"] + sorted(g["files"])
+    return ["--report-format", fmt] + w_argv(ws) + g["sel_argv"] + (g.get("sources") or sorted(g["files"]))
 
 
 def run_group(g):
@@ -575,21 +679,24 @@ def cli_case_term(g, fmt, ws, full, outcome, run, same):
     unchanged = not run["changed"] and not run["removed"]
     exact = sorted(run["changed"]) == sorted(g["expected"]) and not run["removed"]
     b = lambda x: "true" if x else "false"
-    return (f"mk_cli_case [{'; '.join(C.coq_str(w) for w in ws)}] {fullt} ({end}) {C.zlit(run['status'])} {b(run['internal'])} "
-            f"({shown}) {b(unchanged)} {b(exact)} {b(same)}")
+    wr = "[" + "; ".join("%d%%nat" % i for i in written_slots(g, run)) + "]"
+    return (f"mk_cli_case [{'; '.join(C.coq_str(w) for w in ws)}] {fullt} ({end}) {env_term(env_of(g))} {C.zlit(run['status'])} {b(run['internal'])} "
+            f"({shown}) {wr} {b(unchanged)} {b(exact)} {b(same)}")
 
 
 def ascii_ok(s):
     return all(32 <= ord(c) < 127 for c in s)
 
 
-def cli_part(rep, rng, tier, ngroups, use_coq=True, nfamilies=0, ndisplay=0):
+def cli_part(rep, rng, tier, ngroups, use_coq=True, nfamilies=0, ndisplay=0, nwritefaults=0):
     wnames = all_warning_names()
     groups = [make_group(rng, gi, wnames, tier) for gi in range(ngroups)]
     for fi in range(nfamilies):
         groups += make_family(rng, fi, len(groups), wnames)
     for di in range(ndisplay):
         groups.append(make_display_group(rng, di, len(groups), wnames))
+    for wi in range(nwritefaults):
+        groups.append(make_writefault_group(rng, wi, len(groups), wnames))
     with ThreadPoolExecutor(max_workers=C.NPROC) as ex:
         all_runs = list(ex.map(run_group, groups))
     family_ref = {}
@@ -602,7 +709,7 @@ def cli_part(rep, rng, tier, ngroups, use_coq=True, nfamilies=0, ndisplay=0):
     terms, meta = [], []
     shown_graph, shown_bare = set(), set()
     for g, runs in zip(groups, all_runs):
-        full, outcome = inprocess_full(g["files"], g["adir"], f"g{g['gi']}")
+        full, outcome = ([], "ok") if env_of(g)["pre"] else inprocess_full(g["files"], g["adir"], f"g{g['gi']}")
         ref = runs[0]
         for (fmt, ws), run in zip(g["variants"], runs):
             rep.add_eval()
@@ -640,9 +747,13 @@ def cli_part(rep, rng, tier, ngroups, use_coq=True, nfamilies=0, ndisplay=0):
                 rep.disagree("command-line run timed out (60 s and again 240 s)", inp)
                 continue
             probs = python_oracle(run, g["expected"], same)
+            known = known_signature(g, run, probs)
+            if g.get("writefault"):
+                rep.count("write-fault:" + g["writefault"])
+                inp["write_fault"] = g["writefault"]
             if not use_coq:
                 if probs:
-                    rep.violate("cli:" + probs[0][:60] + ":" + ",".join(g["kinds"])[:60], "; ".join(probs), inp,
+                    rep.violate(known or ("cli:" + probs[0][:60] + ":" + ",".join(g["kinds"])[:60]), "; ".join(probs), inp,
                                 observed={k: run[k] for k in ("status", "changed", "removed", "shown", "internal", "stderr_tail")},
                                 replay="python -m pdpy11 <argv> in a directory holding <files>")
                 continue
@@ -651,7 +762,7 @@ def cli_part(rep, rng, tier, ngroups, use_coq=True, nfamilies=0, ndisplay=0):
                 rep.count("cli:not-judged-non-ascii")
                 continue
             terms.append(cli_case_term(g, fmt, ws, full, outcome, run, same))
-            meta.append((inp, run, probs, full, outcome))
+            meta.append((inp, run, probs, full, outcome, known))
     if ndisplay:
         allw = set(all_warning_names()[:-2])
         missing = sorted(allw - shown_graph)
@@ -661,19 +772,19 @@ def cli_part(rep, rng, tier, ngroups, use_coq=True, nfamilies=0, ndisplay=0):
         if missing and use_coq:
             rep.disagree("display stream: a warning kind of WARNING_CLASSES['all'] was never displayed in graphical format", {"missing": missing})
     if len(rep.samples) < 4 and meta:
-        inp, run, _, full, _ = meta[0]
+        inp, run, _, full, _, _ = meta[0]
         rep.sample({"cli_argv": inp["argv"], "source": inp["files"]["a.mac"][:300], "status": run["status"], "written": run["changed"],
                     "diagnostics": full[:4]})
     if use_coq and terms:
         codes = C.run_case_files(ID + "cli", "Gen.GenReports Spec.ReportSpec Model.Reports Run.C07Run", "", C.shard(terms, 300), judge_expr="map judge_cli cases")
         flat = [c for sh in codes for c in sh]
-        for (inp, run, probs, full, outcome), code in zip(meta, flat):
+        for (inp, run, probs, full, outcome, known), code in zip(meta, flat):
             obs = {k: run[k] for k in ("status", "changed", "removed", "shown", "internal", "stderr_tail")}
             if code & 1:
                 rep.disagree("CLI run: Model.Reports.cli_run (status, delivered reports) vs python -m pdpy11", inp,
                              model="see Run.C07Run.corr_cli", impl={**obs, "inprocess_diags": full, "inprocess_outcome": outcome})
             if code & 2:
-                rep.violate("cli:" + (probs[0][:60] if probs else "coq-oracle") + ":" + ",".join(inp["faults"])[:60],
+                rep.violate(known or ("cli:" + (probs[0][:60] if probs else "coq-oracle") + ":" + ",".join(inp["faults"])[:60]),
                             "command-line run contradicts C07 (judged in Coq: Run.C07Run.prop_cli): " + "; ".join(probs), inp, observed=obs,
                             replay="python -m pdpy11 <argv> in a directory holding <files>")
             elif probs:
@@ -885,13 +996,27 @@ def cleanup():
         pass
 
 
+def findings_file(rep):
+    """Props/C07_findings.v holds the `_refuted` witnesses of the two known findings; it is not an obligation."""
+    p = subprocess.run(["coqc", "-Q", ".", "Verif", "-w", "none", "Props/C07_findings.v"], cwd=C.COQ, stdout=subprocess.PIPE, stderr=subprocess.STDOUT, text=True)
+    if p.returncode == 0:
+        rep.notes.append("Props/C07_findings.v compiles: the clauses 'a failed run writes nothing' and 'failure only with an error diagnostic' are refuted "
+                         "for the model of main_cli (known findings " + KNOWN_A + ", " + KNOWN_B + ")")
+    else:
+        rep.notes.append("finding no longer reproduces in the model: Props/C07_findings.v does not compile: " + p.stdout[-300:])
+        C.log("C07: finding no longer reproduces (Props/C07_findings.v does not compile)")
+
+
 def explore(rep, br, tier, seed):
     rng = random.Random(seed)
     try:
+        if br is not None and br.ok:
+            findings_file(rep)
         catalogue_selftest(rep)
         block_part(rep, rng, 400 if tier == "quick" else 4000)
         wargs_part(rep, rng, 150 if tier == "quick" else 1500)
-        cli_part(rep, rng, tier, 126 if tier == "quick" else 700, nfamilies=4 if tier == "quick" else 14, ndisplay=8 if tier == "quick" else 40)
+        cli_part(rep, rng, tier, 126 if tier == "quick" else 700, nfamilies=4 if tier == "quick" else 14, ndisplay=8 if tier == "quick" else 40,
+                 nwritefaults=len(WRITE_FAULTS) if tier == "quick" else 4 * len(WRITE_FAULTS))
     finally:
         cleanup()
 
@@ -923,7 +1048,7 @@ def search(rep, br, tier, seed):
                             replay="props.c07.run_block(warning_control, swallow, trace)")
                 break
         if not rep.violations:
-            cli_part(rep, rng, tier, 60 if tier == "quick" else 300, use_coq=False, nfamilies=4, ndisplay=8)
+            cli_part(rep, rng, tier, 60 if tier == "quick" else 300, use_coq=False, nfamilies=4, ndisplay=8, nwritefaults=len(WRITE_FAULTS))
     finally:
         cleanup()
 
